@@ -5,7 +5,7 @@ PATCH=$(realpath "$1"); PID=$2; TIER=${3:-quick}
 D=$(mktemp -d /tmp/mut.XXXXXX)
 git -C /repo worktree add --detach -f "$D/repo" HEAD >/dev/null 2>&1
 ( cd "$D/repo" && git apply "$PATCH" )
-if [ -n "$RUN_TESTS" ]; then ( cd "$D/repo" && /venv/bin/python -m pytest -q -p no:cacheprovider -x -q --deselect tests/test_image/test_url.py 2>&1 | tail -3 ); fi
+if [ -n "$RUN_TESTS" ]; then ( cd "$D/repo" && /venv/bin/python -m pytest -q -p no:cacheprovider --continue-on-collection-errors --deselect tests/test_image/test_url.py 2>&1 | tail -3 ); fi
 set +e
 TERM_IMAGE_REPO="$D/repo" /verif/run "$PID" --tier "$TIER" | grep -v "^  inconclusive" | tail -12
 RC=$?
